@@ -1,3 +1,5 @@
+//go:build verif
+
 package main
 
 // growth beyond the listed properties: the progress accounting of the real archive healer (Validate with
